@@ -73,7 +73,7 @@ func tlvContentLen(b []byte, h int) int {
 // never allocates beyond len(file)+80KiB+17, and terminates within the step budget.
 func VerifC07_Hostile() {
 	s := chooseShape()
-	installModels(600)
+	installModels(4096)
 	fill = -1
 	if verifrt.Param("symcontent", 0) == 0 {
 		// element contents are one of four constant patterns (short-form length, SEQUENCE tag,
@@ -82,7 +82,7 @@ func VerifC07_Hostile() {
 	}
 	p := build(s)
 	theHash.off = true
-	algOID = oidTable[0]
+	algOID = oidTable[[]int{0, 4, 1, 5}[verifrt.Choose(verifrt.Param("algs", 2)*2)]] // supported and unsupported OIDs
 	if s.hasExt {
 		e0 := pkix.Extension{Id: oidCRLNum, Critical: verifrt.NondetBool("crit0"), Value: sym("extval0", 4)}
 		extsModel = []pkix.Extension{e0}
